@@ -140,9 +140,13 @@ type evidence struct {
 }
 
 func writeEvidence(verifDir, prop string, ev *evidence) {
-	mustMkdir(filepath.Join(verifDir, "evidence"))
+	dir := filepath.Join(verifDir, "evidence")
+	if d := os.Getenv("VERIF_EVIDENCE_DIR"); d != "" {
+		dir = d // seeded-change runs write their evidence elsewhere, so that /verif/evidence always describes /repo as it is
+	}
+	mustMkdir(dir)
 	b, _ := json.MarshalIndent(ev, "", " ")
-	_ = os.WriteFile(filepath.Join(verifDir, "evidence", prop+".json"), append(b, '\n'), 0o644)
+	_ = os.WriteFile(filepath.Join(dir, prop+".json"), append(b, '\n'), 0o644)
 }
 
 func loadFailure(prop, tier string, seed int, verifDir string, err error) int {
